@@ -166,7 +166,7 @@ theorem mul_const_some [Mul K] (f q : Fld K) (hf : f.size1 = false) (hq : q.size
   have hint : intersect f.extent f.extent = true := by rw [intersect_iff']; omega
   have hbe : (q.broadcastTo f).extent = f.extent := rfl
   have h1 : f.mul q = f.mulArr (q.broadcastTo f) := by
-    unfold Fld.mul
+    rw [Fld.mul_closed]
     simp only [hf, hq, Bool.false_and, Bool.false_eq_true, if_false, if_true]
   rw [h1]
   unfold Fld.mulArr
